@@ -88,6 +88,10 @@ impl ErrKind {
             ErrKind::RawEbadf => io::Error::from_raw_os_error(libc::EBADF),
         }
     }
+    /// injected as a bare OS error code (no payload object to follow)
+    pub fn is_raw(self) -> bool {
+        matches!(self, ErrKind::RawEio | ErrKind::RawEnospc | ErrKind::RawEbadf)
+    }
     /// Does `e` look like the error this kind injects?
     pub fn matches(self, e: &io::Error) -> bool {
         match self {
@@ -97,6 +101,31 @@ impl ErrKind {
             _ => e.kind() == self.make().kind(),
         }
     }
+}
+
+/// Is the error object the simulated reader reported still carried by `e` (directly as its payload,
+/// or further down its `source()` chain when a caller wrapped it with context)?
+pub fn carries_sim_error(e: &io::Error) -> bool {
+    let mut cur: Option<&(dyn std::error::Error + 'static)> = e.get_ref().map(|p| p as &(dyn std::error::Error + 'static));
+    let mut depth = 0;
+    while let Some(c) = cur {
+        if c.is::<SimIoError>() {
+            return true;
+        }
+        if let Some(io) = c.downcast_ref::<io::Error>() {
+            if let Some(p) = io.get_ref() {
+                if p.is::<SimIoError>() {
+                    return true;
+                }
+            }
+        }
+        depth += 1;
+        if depth > 16 {
+            break;
+        }
+        cur = c.source();
+    }
+    false
 }
 
 /// Marker payload so the oracle can tell whether the very error object survived.
